@@ -278,3 +278,43 @@ Proof.
   unfold chan_drop_tx. destruct (ch_tx (gch ch H)); [|reflexivity].
   rewrite wake_cell_buf. destruct (Nat.eq_dec ch c) as [->|Hne]; [rewrite gch_uch_same; reflexivity | rewrite gch_uch_other by exact Hne; reflexivity].
 Qed.
+
+(* ---------- notifications of the outermost host are never dropped (sixth instance) ---------- *)
+(* The hosting executor's ready queue (xready) is written by TaskWaker::wake_by_ref only.  No step of the
+   runtime removes an entry: whatever else happens during a poll, a wake-up that reached the outermost host
+   stays queued until the host itself takes it. *)
+Definition Rxready (H H' : heap) : Prop := exists l, xready H' = xready H ++ l.
+Lemma Rxready_refl H : Rxready H H. Proof. exists []. rewrite app_nil_r. reflexivity. Qed.
+Lemma Rxready_trans a b c : Rxready a b -> Rxready b c -> Rxready a c.
+Proof. intros [l1 E1] [l2 E2]. exists (l1 ++ l2). rewrite E2, E1, app_assoc. reflexivity. Qed.
+Lemma Rxready_same H H' : xready H' = xready H -> Rxready H H'.
+Proof. intros E. exists []. rewrite E, app_nil_r. reflexivity. Qed.
+Definition frame_xready := frame_all Rxready Rxready_refl Rxready_trans
+  (fun c f H _ => Rxready_same H (ucmd c f H) eq_refl)
+  (fun c f H _ => Rxready_same H (uch c f H) eq_refl)
+  (fun u f H _ => Rxready_same H (utf u f H) eq_refl)
+  (fun n H => Rxready_same H (note n H) eq_refl)
+  (fun g H => Rxready_same H (set_woken g H) eq_refl)
+  (fun q H => ex_intro _ [q] eq_refl)
+  (fun c H => Rxready_same H (mkH (chans H ++ [c]) (tfl H) (cmds H) (woken H) (xready H) (aborted H) (log H) (hout H)) eq_refl)
+  (fun t H => Rxready_same H (mkH (chans H) (tfl H ++ [t]) (cmds H) (woken H) (xready H) (aborted H) (log H) (hout H)) eq_refl)
+  (fun H => Rxready_same H (mkH (chans H) (tfl H) (cmds H) (woken H ++ [false]) (xready H) (aborted H) (log H) (hout H)) eq_refl)
+  (fun n H => Rxready_same H (add_aborted n H) eq_refl)
+  (fun e H => Rxready_same H (push_hout e H) eq_refl)
+  (fun c H => Rxready_same H (mkH (chans H) (tfl H) (cmds H ++ [c]) (woken H) (xready H) (aborted H) (log H) (hout H)) eq_refl).
+Theorem xready_poll_next fuel cid w H r H' : poll_next fuel cid w H = Some (r, H') -> Rxready H H'.
+Proof. intros E. unfold poll_next in E. apply (frame_xready fuel) in E. exact E. Qed.
+Theorem xready_settle fuel cid H H' : settle fuel cid H = Some H' -> Rxready H H'.
+Proof. intros E. unfold settle in E. apply (frame_xready fuel) in E. exact E. Qed.
+Lemma xready_chan_send ch v H : Rxready H (snd (chan_send ch v H)).
+Proof.
+  apply (R_chan_send Rxready Rxready_refl Rxready_trans (fun c f H _ => Rxready_same H (ucmd c f H) eq_refl)
+           (fun c f H _ => Rxready_same H (uch c f H) eq_refl)); intros; try (apply Rxready_same; reflexivity).
+  exists [q]. reflexivity.
+Qed.
+Lemma xready_drop_req e H : Rxready H (drop_req e H).
+Proof.
+  apply (R_drop_req Rxready Rxready_refl Rxready_trans (fun c f H _ => Rxready_same H (ucmd c f H) eq_refl)
+           (fun c f H _ => Rxready_same H (uch c f H) eq_refl)); intros; try (apply Rxready_same; reflexivity).
+  exists [q]. reflexivity.
+Qed.
